@@ -28,12 +28,19 @@ def consts_from_source():
     return out
 
 
-def gen_cases(rng, count, big):
+def gen_cases(rng, count, big, kinit=128):
     cases = []
+    # sizes aimed at RangeEnd's exponential probe: runs of identical codes longer than kInitialLength
+    # (a node inside such a run must grow max_length past the initial value) - taken from the constant
+    # the source currently uses, so a retuned constant moves the boundary cases with it
+    probe_sizes = [2 * kinit + 1, 2 * kinit + 50, 4 * kinit + 3, kinit + 2]
     for cid in range(count):
         mode = rng.randrange(8)
         if cid < 12:
             n = 2 + cid % 6
+        elif 12 <= cid < 12 + 2 * len(probe_sizes):
+            n = probe_sizes[(cid - 12) % len(probe_sizes)]
+            mode = 1 if cid < 12 + len(probe_sizes) else 9
         elif big and cid % 40 == 0:
             n = rng.choice([127, 128, 129, 511, 512, 513, 600, 1100])
         else:
@@ -50,6 +57,10 @@ def gen_cases(rng, count, big):
             codes = [base + rng.randrange(8) for _ in range(n)]
         elif mode == 4:
             codes = [rng.choice([0, 1, 2**29, 2**29 + 1, 2**30 - 1]) for _ in range(n)]
+        elif mode == 9:
+            # distinct codes followed by a long run of one code (and the mirror image)
+            k = n // 2 - 1
+            codes = list(range(k)) + [k + 5] * (n - k) if rng.random() < 0.5 else [3] * (n - k) + list(range(10, 10 + k))
         else:
             codes = [rng.randrange(1 << rng.randrange(1, 31)) for _ in range(n)]
         codes.sort()
@@ -67,9 +78,9 @@ def gen_cases(rng, count, big):
             boxes.append(lo + hi)
         if rng.random() < 0.1:                 # degenerate bounding box: everything in a plane
             boxes = [[b[0], b[1], 1, b[3], b[4], 1] for b in boxes]
-        self_ = rng.random() < 0.3
+        self_ = rng.random() < 0.3 and n <= 1200
         kind = 1 if (rng.random() < 0.25 and not self_) else 0
-        if self_:
+        if self_ and n <= 1200:
             m, queries = n, [x for b in boxes for x in b]
         else:
             m = rng.choice([1, 2, 5, 20]) if n < 200 else 8
@@ -128,8 +139,13 @@ def run(cx):
     exe = vp.build_harness("c14_bvh", "seq", link_lib=False)
 
     rng = random.Random(cx.seed * 7919 + 14)
-    cases = gen_cases(rng, cx.pick(1500, 40000), True)
-    lines = ["SPREAD"] + [case_line(c) for c in cases]
+    kinit, kmult = consts.get("kInitialLength") or 128, consts.get("kLengthMultiple") or 4
+    pow2 = lambda v: v >= 1 and (v & (v - 1)) == 0
+    cx.obligation("translate:collider.h constants are powers of two (hypothesis of radix_tree_wf_pow2)",
+                  pow2(kinit) and pow2(kmult) and kmult >= 2 and kinit <= 2**20,
+                  "kInitialLength=%s kLengthMultiple=%s: the binary search in RangeEnd is only proved for powers of two" % (kinit, kmult))
+    cases = gen_cases(rng, cx.pick(1500, 40000), True, kinit)
+    lines = ["CONST %d %d" % (kinit, kmult), "SPREAD"] + [case_line(c) for c in cases]
     inp = "\n".join(lines) + "\n"
     kl = lambda l: l.split()[1] if l.startswith("CASE") else None
     ko = lambda l: l.split()[1] if l.startswith("P ") else None
